@@ -106,6 +106,7 @@ def run_impl(ops, pkce_required):
                         form["redirect_uri"] = o["redirect"]
                     if o.get("verifier") is not None:
                         form["code_verifier"] = o["verifier"]
+                    form.update(o.get("extra") or {})
                     st, body, hdrs = srv.create_token_response(S.HReq("POST", "https://as.example/token", form, headers))
                     outs.append(token_out(store, st, body))
                 elif k == "device_authorize":
@@ -134,6 +135,7 @@ def run_impl(ops, pkce_required):
                     form = dict(form, grant_type=DEVICE_GT)
                     if o.get("device") is not None:
                         form["device_code"] = devices.get(o["device"], "unknown-%s" % o["device"])
+                    form.update(o.get("extra") or {})
                     st, body, hdrs = srv.create_token_response(S.HReq("POST", "https://as.example/token", form, headers))
                     outs.append(token_out(store, st, body))
                 else:
@@ -211,7 +213,7 @@ def check_seq(ctx, ops, pkce_required, tag):
             issued[out[1]] = o
             t_issue[out[1]] = now
         if o["op"] == "device_authorize" and out[0] == "device":
-            devs[out[1]] = (o.get("client_param"), now)
+            devs[out[1]] = (o.get("client_param"), now, o.get("scope"))
         if o["op"] == "decide":
             decisions[o["device"]] = (o["user"], o["approve"])
         if o["op"] == "redeem" and out[0] == "token":
@@ -259,6 +261,8 @@ def check_seq(ctx, ops, pkce_required, tag):
                 why = "not-approved"
             elif now - d[1] > 1800:
                 why = "expired"
+            elif not set((out[2] or "").split()) <= set((d[2] or "").split()):
+                why = "scope-exceeds-approved"
             if why:
                 ctx.violation("C06:device-token:%s" % why, "a device code yielded a token although: %s" % why, case)
         if o["op"] == "poll" and out[0] == "error" and o.get("device") in devs and o.get("cred") and o["cred"][1] == devs[o["device"]][0] \
@@ -341,6 +345,15 @@ def run(ctx):
                         ops.append({"op": "decide", "device": 0, "user": dec[0], "approve": dec[1]})
                     ops += [{"op": "tick", "dt": dt}, {"op": "poll", "device": 0, "cred": pcred}, {"op": "poll", "device": 0, "cred": dcred}]
                     check_seq(ctx, ops, True, "golden-device")
+    # parameters that do not belong to the request: a token request for a code or a device code has no scope of its own
+    for extra in ({"scope": "a b"}, {"scope": "b"}, {"scope": ""}, {"scope": "a b zzz"}, {"user": "mallory", "username": "mallory"}, {"client_id": "c2"}):
+        ops = [{"op": "device_authorize", "cred": ["basic", "c1", "s1"], "client_param": "c1", "scope": "a"},
+               {"op": "decide", "device": 0, "user": "alice", "approve": True},
+               {"op": "poll", "device": 0, "cred": ["basic", "c1", "s1"], "extra": extra}]
+        check_seq(ctx, ops, True, "golden-device-extra")
+        ops = [{"op": "authorize", "client": "c1", "redirect": "https://c1.example/cb", "scope": "a", "challenge": None, "method": None, "approve": "alice"},
+               {"op": "redeem", "code": 0, "cred": ["basic", "c1", "s1"], "redirect": "https://c1.example/cb", "verifier": None, "extra": extra}]
+        check_seq(ctx, ops, False, "golden-code-extra")
     # verifier / challenge boundary strings
     m = ctx.model
     from authlib.oauth2.rfc7636.challenge import CODE_VERIFIER_PATTERN
